@@ -547,6 +547,116 @@ def nontrivial_groups(keys):
     return len(distinct) >= 2 and len(ck) > len(distinct)
 
 
+# --------------------------------------------------------------------------- known findings: outcome discriminators
+# A finding tag is kept only when the input is in the recorded class (decided where the tag is set) AND the observed outcome is the
+# RECORDED kind of outcome; any other failure on the same input stays unexcused (tag `finding_class_other_outcome` for the record).
+def _crepr(k):
+    return repr(_canon(k))
+
+
+def _str_classes(rows, keys):
+    """the groups the string branch forms: classes of equal str() of the key parts, first-occurrence order; [first key, member positions]"""
+    classes = {}
+    for i, k in enumerate(keys):
+        classes.setdefault(_strs(k), [k, []])[1].append(i)
+    return list(classes.values())
+
+
+def _eq_classes(keys):
+    classes = []
+    for i, k in enumerate(keys):
+        for c in classes:
+            if _crepr(c[0]) == _crepr(k):
+                c[1].append(i)
+                break
+        else:
+            classes.append([k, [i]])
+    return classes
+
+
+def _bitmask(members):
+    return sum(1 << i for i in members)
+
+
+def _recorded_str_fallback(shape, st, out, rows, keys, expect):
+    classes = _str_classes(rows, keys)
+    if shape == 'items':
+        want = sorted((_crepr(k0), tuple(repr(rows[i][0]) for i in m)) for k0, m in classes)
+        return st == 'ok' and sorted((_crepr(k), tuple(repr(r[0]) for r in rs)) for k, rs in out) == want
+    if shape == 'values':
+        return st == 'ok' and sorted(tuple(repr(r[0]) for r in rs) for rs in out) == sorted(tuple(repr(rows[i][0]) for i in m) for _, m in classes)
+    if shape == 'avalues':
+        return st == 'ok' and sorted(out) == sorted(_bitmask(m) for _, m in classes)
+    if shape == 'pairs':
+        firsts = [_crepr(k0) for k0, _ in classes]
+        if len(set(firsts)) < len(firsts):      # equal keys split by str(): the result index cannot be built
+            return (st, out) == ('err', 'ErrorInitIndex')
+        return st == 'ok' and sorted(zip(map(_crepr, out[0]), out[1])) == sorted((_crepr(k0), _bitmask(m)) for k0, m in classes)
+    return False
+
+
+def _recorded_series_apply(shape, st, out, rows, keys, expect):
+    # the result index is built by a typed / hierarchical constructor from the group keys: it raises, or the values are right and
+    # the labels are the keys reinterpreted
+    if st == 'err':       # IndexDate / IndexHierarchy .from_labels over ints, strs, None: the three classes seen on the unchanged tree
+        return out in ('ErrorInitIndex', 'TypeError', 'RuntimeError')
+    if shape != 'pairs':
+        return False
+    return sorted(out[1]) in (sorted(_bitmask(m) for _, m in _str_classes(rows, keys)), sorted(_bitmask(m) for _, m in _eq_classes(keys)))
+
+
+def _recorded_window_apply_constructor(shape, st, out, rows, keys, expect):
+    axis, exp_labels, exp_values = expect
+    if axis == 0:                                   # FrameGO: IndexGO.from_labels -> Series refuses a grow-only index
+        return (st, out) == ('err', 'ErrorInitSeries')
+    if st == 'err':                                 # hierarchical from_labels over flat column labels
+        return out in ('ErrorInitIndex', 'TypeError')
+    return shape == 'pairs' and list(out[1]) == exp_values and [_crepr(l) for l in out[0]] != [_crepr(l) for l in exp_labels]
+
+
+_RECORDED = {
+    'C13-str-fallback': _recorded_str_fallback,
+    'C13-framego-axis1-sort-path': lambda shape, st, out, rows, keys, expect: (st, out) == ('err', 'ErrorInitFrame'),
+    'C13-window-array-axis1-empty': lambda shape, st, out, rows, keys, expect: (st, out) == ('err', 'RuntimeError'),
+    'C13-window-apply-empty-hier': lambda shape, st, out, rows, keys, expect: (st, out) == ('err', 'ErrorInitIndex'),
+    'C13-window-apply-index-constructor': _recorded_window_apply_constructor,
+    'C13-series-group-apply-index-constructor': _recorded_series_apply,
+}
+
+
+def confirm_outcome(tags, shape, st, out, rows=None, keys=None, expect=None):
+    f = tags.get('finding')
+    if f is None:
+        return tags
+    try:
+        ok = _RECORDED[f](shape, st, out, rows, keys, expect)
+    except Exception:  # noqa -- an outcome the discriminator cannot even read is not the recorded one
+        ok = False
+    if ok:
+        return dict(tags, outcome='recorded')
+    tags = {k: v for k, v in tags.items() if k != 'finding'}
+    tags['finding_class_other_outcome'] = f
+    return tags
+
+
+def spec_windows(n, p):
+    """(label position, first row, one past the last row) of every window the specification yields (own arithmetic)"""
+    out = []
+    if p['size'] <= 0 or p['step'] < 0:
+        return out
+    cmax = n if p['start_shift'] >= 0 else n - p['start_shift']
+    for i in range(cmax + 1):
+        left = p['start_shift'] + i * p['step']
+        size = p['size'] + i * p['size_increment']
+        if i and not (left <= cmax - 1 and size >= 0):
+            continue
+        lab = left + size - 1 + p['label_shift']
+        lo, hi = min(max(0, left), n), min(max(0, left + size), n)
+        if 0 <= lab < n and (not p['window_sized'] or max(0, hi - lo) == size):
+            out.append((lab, lo, max(lo, hi)))
+    return out
+
+
 # --------------------------------------------------------------------------- generators
 _VALS = {
     'int': [1, 2, 3, 10, 9],
@@ -688,6 +798,7 @@ def form_case(ctx, stratum, desc, tags, keys, rows, axis, mcall, scall, it_value
     desc = dict(desc, call=call, observed=repr(out)[:400])
     if series_apply_finding and form in ('apply', 'apply_items', 'apply_pool', 'apply_pool_items'):
         tags, m = dict(tags, finding='C13-series-group-apply-index-constructor'), None     # only S is compared (the model does not follow)
+    tags = confirm_outcome(tags, {'values': 'values', 'apply_iter': 'avalues'}.get(form, 'pairs'), st, out, rows, keys)
     return Case(stratum, desc, m=m, s=sp, tags=tags, nontrivial=nontrivial_groups(keys))
 
 
@@ -762,6 +873,7 @@ def frame_group_case(ctx, spec, layout, axis, keykind, positions, stratum, apply
                           if go else f'f.iter_group_items({key!r}, axis={axis})'), observed=brief(out, st))
         if go or receiver:
             tags = dict(tags, receiver='FrameGO' if go else receiver)
+        tags = confirm_outcome(tags, 'items', st, out, rows, keys)
         return Case(stratum, desc, m=f'gres_eqb {obs} {mcall}', s=f'gres_same {obs} {scall}', py_fail=py_fail, tags=tags,
                     nontrivial=nontrivial_groups(keys))
     if form is not None:
@@ -776,6 +888,7 @@ def frame_group_case(ctx, spec, layout, axis, keykind, positions, stratum, apply
         out = ([key_py(k) for k in lit.labels(out.index)], out.values.tolist())
     obs = res_lit(st, out, apply_lit)
     desc.update(call=f'f.iter_group({key!r}, axis={axis}).apply(bitmask of member labels)', observed=repr(out))
+    tags = confirm_outcome(tags, 'pairs', st, out, rows, keys)
     return Case(stratum, desc, m=f'ares_eqb {obs} (M_apply_api {rows_lit(rows)} {mcall})',
                 s=f'ares_same {obs} (S_apply_api {rows_lit(rows)} {scall})', tags=tags, nontrivial=nontrivial_groups(keys))
 
@@ -833,6 +946,7 @@ def series_group_cases(ctx):
         obj = _DTYPE[kind] is object
         st, out = run(lambda: [(key_py(k), axis_rows(g, 0)) for k, g in s.iter_group_items()])
         tags = fallback_tags({'api': 'series.iter_group_items', 'dtype': kind}, obj, False, values)
+        tags = confirm_outcome(tags, 'items', st, out, rows, values)
         ctx.count(f'series-group:{kind}', f'series-group:n={len(values)}')
         obs = res_lit(st, out, groups_lit)
         yield Case('api:series.iter_group_items',
@@ -862,6 +976,7 @@ def series_group_cases(ctx):
         special_index = series_index_special(s)
         if special_index:
             tags = dict(tags, finding='C13-series-group-apply-index-constructor')
+        tags = confirm_outcome(tags, 'pairs', st, out, rows, values)
         ctx.count('series-apply')
         yield Case('api:series.iter_group.apply',
                    {'call': f's.iter_group{"_items" if items else ""}().apply(bitmask of member labels)', 'values': [repr(v) for v in values],
@@ -1149,6 +1264,7 @@ def adversarial_key_cases(ctx):
             else:
                 st, out = run(lambda: [(key_py(k), axis_rows(g, axis)) for k, g in iti()])
                 obs = res_lit(st, out, groups_lit)
+                tags = confirm_outcome(tags, 'items', st, out, rows, lkeys)
                 yield Case('api:iter_group_labels[adversarial-keys]', dict(desc, call=callname.replace('(', '_items(', 1), observed=brief(out, st)),
                            m=f'gres_eqb {obs} {mcall}', s=f'gres_same {obs} {scall}', tags=tags, nontrivial=nontrivial_groups(lkeys))
 
@@ -1210,6 +1326,7 @@ def labels_cases(ctx):
             st, out = run(lambda: [(key_py(k), axis_rows(g, axis)) for k, g in it()])
             obs = res_lit(st, out, groups_lit)
             desc['observed'] = brief(out, st)
+            tags = confirm_outcome(tags, 'items', st, out, rows, keys)
             yield Case('api:iter_group_labels_items', desc, m=f'gres_eqb {obs} {mcall}', s=f'gres_same {obs} {scall}', tags=tags,
                        nontrivial=nontrivial_groups(keys))
         else:
@@ -1220,6 +1337,7 @@ def labels_cases(ctx):
                 out = ([key_py(k) for k in lit.labels(out.index)], out.values.tolist())
             obs = res_lit(st, out, apply_lit)
             desc['observed'] = repr(out)
+            tags = confirm_outcome(tags, 'pairs', st, out, rows, keys)
             yield Case('api:iter_group_labels.apply', desc,
                        m=f'ares_eqb {obs} (M_apply_api {rows_lit(rows)} {mcall})',
                        s=f'ares_same {obs} (S_apply_api {rows_lit(rows)} {scall})', tags=tags, nontrivial=nontrivial_groups(keys))
@@ -1327,6 +1445,7 @@ def window_case(ctx, c, axis, p, stratum, desc, as_array=False, values_only=Fals
         mmodel = 'M_windows_frame_array_axis1'
         if has_empty_anchor(n, p):
             tags['finding'] = 'C13-window-array-axis1-empty'
+            tags = confirm_outcome(tags, 'witems', st, out)
     desc = dict(desc, params=p, axis=axis, observed=shown)
     ctx.count(f'{stratum}:n={n}', f'{stratum}:yielded={min(yielded, 7)}', f'{stratum}:{"err" if st == "err" else "ok"}')
     clipped = p['start_shift'] < 0 or p['size'] > n or p['label_shift'] != 0 or p['size_increment'] != 0
@@ -1409,6 +1528,9 @@ def window_form_case(ctx, c, axis, p, form, stratum, desc):
             tags['finding'], m = 'C13-window-apply-index-constructor', None
         elif c.ndim == 1 and c.index.depth > 1 and spec_window_count(len(rows), p) == 0:
             tags['finding'], m = 'C13-window-apply-empty-hier', None
+        sw = spec_windows(len(rows), p)
+        tags = confirm_outcome(tags, 'pairs', st, out, rows, None,
+                               expect=(axis, [rows[lab][0] for lab, _, _ in sw], [_bitmask(range(lo, hi)) for _, lo, hi in sw]))
     return Case(stratum, desc, m=m, s=mk('S_windows'), tags=tags,
                 nontrivial=st == 'ok' and len(out if isinstance(out, list) else out[0]) >= 1)
 
